@@ -28,7 +28,13 @@ def _keys_rel(interp, m1, m0, key, mode):
     return SV(BOOL, z3.And(here if mode == "add" else z3.Not(here), z3.ForAll([k], z3.Or(k == kt, same))))
 
 
+def _replace_all(interp, args, kwargs):
+    from . import contract as C
+    return C.EXTERNS["replace_all"](interp, args, kwargs)
+
+
 SPEC_BUILTINS = {
+    "replace_all": _replace_all,
     "same_keys": lambda interp, args, kwargs: _keys_rel(interp, args[0], args[1], None, "same"),
     "map_eq_except_add": lambda interp, args, kwargs: _keys_rel(interp, args[0], args[1], args[2], "add"),
     "map_eq_except_del": lambda interp, args, kwargs: _keys_rel(interp, args[0], args[1], args[2], "del"),
